@@ -70,6 +70,7 @@ fn run_history(m: &mut MatchGeneratorDriver, max_window: usize, steps: &[Step], 
     let mut after_reset = false;
     let mut cross_slice_match = false;
     let mut any_match = false;
+    let mut far_match = false;
     let mut bi = 0usize;
     for (si, st) in steps.iter().enumerate() {
         match st {
@@ -163,6 +164,9 @@ fn run_history(m: &mut MatchGeneratorDriver, max_window: usize, steps: &[Step], 
                                 cross_slice_match = true;
                             }
                             any_match = true;
+                            if offset > 8 << 20 {
+                                far_match = true;
+                            }
                             if evicted || !retained.is_empty() && retained_before < block_start {
                                 evicted_before_match = true;
                             }
@@ -186,6 +190,7 @@ fn run_history(m: &mut MatchGeneratorDriver, max_window: usize, steps: &[Step], 
         }
     }
     ctx.feat_if(any_match, "match:found");
+    ctx.feat_if(far_match, "match:distance_above_8MiB");
     ctx.feat_if(cross_slice_match, "match:source_in_earlier_slice");
     ctx.feat_if(evicted_before_match, "match:after_eviction");
     ctx.feat_if(after_reset && any_match, "match:after_reset_reuse");
@@ -207,6 +212,29 @@ fn check_generated(case: &Case, ctx: &mut CaseCtx) -> CaseResult {
     if ctx.nontrivial && case.steps.len() <= 3 {
         ctx.sample = Some(serde_json::to_value(case).unwrap());
     }
+    Ok(())
+}
+
+/// A window of more than 8 MiB (130..150 slices of 65535 bytes): one matched block, the slices in
+/// between skipped, then 1..3 blocks that copy from the very first block - matches at distances
+/// beyond 8 MiB, still inside the window the driver was configured with and advertises.
+fn check_large(case: &(u16, u8, u8), ctx: &mut CaseCtx) -> CaseResult {
+    let (seed, extra, tail) = *case;
+    let slices = 130 + (extra % 21) as usize;
+    let tail = 1 + (tail % 3) as usize;
+    // incompressible blocks: the copies at the end can only be found in the very first block
+    let mut steps = vec![Step::Block { len: 65_535, flavour: 4, seed, skip: false }];
+    for k in 0..slices - 1 - tail {
+        steps.push(Step::Block { len: 65_535, flavour: 4, seed: seed.wrapping_add(1 + k as u16), skip: true });
+    }
+    for k in 0..tail {
+        steps.push(Step::Block { len: 65_535, flavour: 5, seed: seed.wrapping_mul(3).wrapping_add(k as u16 * 977) % 40_000, skip: false });
+    }
+    let mut m = MatchGeneratorDriver::verif_new(65_535, slices);
+    run_history(&mut m, 65_535 * slices, &steps, ctx, None)?;
+    ctx.feat("window:larger_than_8MiB");
+    ctx.nontrivial = true;
+    ctx.set_hash_bytes(&[format!("{case:?}").as_bytes()]);
     Ok(())
 }
 
@@ -288,6 +316,8 @@ pub fn run(eng: &Engine) {
         || (prop::collection::vec((prop_oneof![1u32..=40, 1u32..=65_535], 0u8..=6, any::<u16>(), prop::bool::weighted(0.2)), 1..=6),),
         check_production,
     );
+    let n3 = eng.tier.pick(16, 160);
+    eng.run_stage("window_above_8MiB", n3, || (any::<u16>(), 0u8..=20, 0u8..=2), check_large);
     if eng.tier == Tier::Thorough {
         eng.run_enumerated("exhaustive_binary_strings", "every binary string of length <= 16 x every composition into <= 3 blocks (parts <= 8), slice 8, window 16", exhaustive_total(), 4096, |i, c| {
             let r = exhaustive_item(i, c);
@@ -309,6 +339,7 @@ pub fn replay(eng: &Engine, stage: &str, case: &Value) -> CaseResult {
     match stage {
         "scaled_windows" => eng.replay_value(stage, case, check_generated),
         "production_window" => eng.replay_value(stage, case, check_production),
+        "window_above_8MiB" => eng.replay_value(stage, case, check_large),
         "exhaustive_binary_strings" => {
             let i = case["index"].as_u64().ok_or_else(|| Failure::new("machinery", "index missing"))?;
             let mut ctx = CaseCtx::default();
